@@ -25,7 +25,7 @@ RULE = (
     "pair of distinct objects; distinct = distinct (family fingerprint, i, j)"
 )
 ASSUMPTIONS = ["origins are produced by the library's constructors / merge_origins", "content equality itself is C01's subject: frozenset order and separator re-splits are not generated here"]
-MUST_SEE = ["deep_3000_comparisons", "trees_sharing_child_objects", "rejected_replace_then_hash", "permissive_non_node_comparisons", "one_origin_diff_depth_ge2", "equal_pairs_distinct_objects", "triples", "confusable_origin_pairs", "serial_families", "non_node_comparisons", "hash_rechecks", "shared_subtrees", "shared_vs_unshared_families"]
+MUST_SEE = ["operands_via_pickle_or_deepcopy", "deep_3000_comparisons", "trees_sharing_child_objects", "rejected_replace_then_hash", "permissive_non_node_comparisons", "one_origin_diff_depth_ge2", "equal_pairs_distinct_objects", "triples", "confusable_origin_pairs", "serial_families", "non_node_comparisons", "hash_rechecks", "shared_subtrees", "shared_vs_unshared_families"]
 CONFIG = {
     "quick": {"shards": 16, "families": 500, "watchdog_s": 300},
     "thorough": {"shards": 32, "families": 500, "watchdog_s": 3000},
@@ -119,8 +119,24 @@ def run_shard(ctx):
         if serial:
             ctx.count("serial_families")
         roots = []
+        keepalive = []
         for s, kind in fam:
             r = build(U, s)
+            via = rng.choice(["built", "built", "built", "pickle", "deepcopy"])
+            if via != "built":
+                # the operand did not come out of a constructor: it went through pickle (a result handed over by a worker
+                # process, a disk cache) or copy.deepcopy; it is a node with the same content and origins all the same
+                import copy
+                import pickle
+
+                try:
+                    r2 = pickle.loads(pickle.dumps(r)) if via == "pickle" else copy.deepcopy(r)
+                except Exception:  # noqa: BLE001 - (classes defined inside functions cannot be pickled)
+                    r2 = None
+                if r2 is not None and type(r2) is type(r):
+                    ctx.count("operands_via_pickle_or_deepcopy")
+                    keepalive.append(r)
+                    r = r2
             roots.append(r)
             hashes.append((r, hash(r)))
             if serial:
